@@ -20,14 +20,21 @@ from .. import monitor
 REPOTESTS = True
 
 RULE = ('case index -> cell kind (orthogonal / mildly tilted / tilted exactly to the LAMMPS limit / beyond it / '
-        'crystal family / rotated triclinic / rotated orthogonal) x 8 periodicity settings x 8 call shapes '
+        'crystal family / rotated triclinic / rotated orthogonal / flat: LAMMPS-normalised with one small width, or a '
+        'cyclic permutation of it / needle: two short vectors and a long tilted one / skew: a short vector sheared '
+        'along a longer one, triangular or rotated; in flat and skew cells a +-1 combination of the PERIODIC cell '
+        'vectors of the case is shorter than every cell vector) x 8 periodicity settings x 8 call shapes '
         '(one-one, one-many, many-one, many-many, list/tuple, memory layouts, System index forms, displacement) '
         'by mixed radix; origin class (0, O(L), O(1e3 L)) and length scale (1, 1e-3, 1e3) rotate with the round; '
-        'inside a case the pairs rotate over 8 classes (inside, short separation wrapped across faces, on faces, on '
-        'corners, exactly half a cell apart, one outside, both outside up to +-5 cells, lattice image of the same site). '
+        'inside a case the pairs rotate over 10 classes (inside, short separation wrapped across faces, on faces, on '
+        'corners, exactly half a cell apart, one outside, both outside up to +-5 cells, lattice image of the same site, '
+        'direct separation = a shortest +-1 combination s of the cell vectors +- an offset of 1e-6..0.2 |s|, direct '
+        'separation = f s + offset with 1/2 <= f < 1 (short, yet beaten by the image d - s; in flat / skew cells mostly '
+        'with |d| below half the shortest cell vector); both points of the last two classes lie in the cell). '
         'A case is non-trivial when at least one of its pairs needed a non-zero lattice shift (or the setting is '
         'all-free, where the direct separation is the claim); distinct = fingerprint of (cell, origin, pbc, points).')
-ASSUMPTIONS = ['cells are right-handed with smallest perpendicular width >= 0.15 L (keeps the exhaustive search small)',
+ASSUMPTIONS = ['cells are right-handed with smallest perpendicular width >= 0.15 L (>= 0.06 L for the flat / needle / skew kinds; '
+               'keeps the exhaustive search small)',
                'comparison bound 64 eps (|p0|+|p1|+3L); nearest-image distances within 4 bounds of w_min/2 are exempt (counted)',
                'a point counts as inside the cell when its relative coordinates are in [-1e-9, 1+1e-9]',
                'the nearest-image clause is asserted only inside the guard the property states; outside it only '
@@ -51,6 +58,11 @@ M_CLAUSES = [
     ('nearest', 'inside the guard the distance is the true nearest-image distance'),
     ('not-below-nearest', 'distance is not below the true nearest-image distance'),
 ]
+
+
+# entry points whose rows are classified by oracle.c02_sep.hostility (inputs that defeat shortcuts of the image search)
+HOSTILE_EPS = ('dvect', 'dmag', 'System.dvect', 'System.dmag', 'displacement[initial]', 'displacement[final]')
+PBC2 = [p for p in GEN.PBCS if sum(p) >= 2]      # settings in which a combination of cell vectors is a lattice vector
 
 
 class State:
@@ -99,6 +111,18 @@ def _count_truth(rec, t, ep):
         rec.count('info:27-minimum-not-the-true-nearest(outside guard)', int((t.lni[done] < t.l27[done] - 8 * t.bnd[done]).sum()))
         rec.count('info:ties(two candidates within the bound)', int((t.ntie27 > 1).sum()))
         rec.count('info:unique-nearest-vector-compared', int((t.guard & (t.ntie27 == 1)).sum()))
+    if ep in HOSTILE_EPS and t.n:
+        h = S.hostility(t)
+        pn = GEN.pbc_name(t.pbc)
+        nb = int(h['short_direct_beaten'].sum())
+        rec.count(f'hostile:{ep}:short-direct-beaten', nb)
+        rec.count(f'hostile:{ep}:short-direct-beaten:both-inside', int((h['short_direct_beaten'] & t.inside).sum()))
+        if ep in ('dvect', 'dmag'):
+            rec.count(f'hostile:{ep}:short-direct-beaten:pbc={pn}', nb)
+            if nb and S.is_lammps_normalised(t.vects):
+                rec.count(f'hostile:{ep}:short-direct-beaten:lammps-normalised-cell', nb)
+        rec.count(f'hostile:{ep}:rel-within-half-beaten', int(h['relhalf_beaten'].sum()))
+        rec.count(f'hostile:{ep}:best-image-is-combination', int(h['combo_image'].sum()))
     if not S.self_check(t):
         rec.fail('oracle self-check: exhaustive minimum <= 27-candidate minimum', 'harness:oracle-selfcheck')
 
@@ -234,6 +258,11 @@ def call_both(ctx, am, p0, p1, box, pbc, tag):
         err = np.abs(np.linalg.norm(res_, axis=1) - mag_)
         ok = err <= bnd
     rec.count('rows:dvect-vs-dmag', len(mag_))
+    try:
+        rec.count('hostile:dvect-vs-dmag:short-direct-beaten',
+                  int(S.hostility(_truth(p0, p1, box.vects, box.origin, pbc))['short_direct_beaten'].sum()))
+    except S.Mismatch:
+        pass
     rec.check(ok.all(), 'length of the separation vector equals the scalar periodic distance', 'dvect-vs-dmag',
               **({} if ok.all() else dict(row=int(np.nonzero(~ok)[0][0]), err=err[~ok][:3], bound=bnd[~ok][:3],
                                           dvect=res_[~ok][:3], dmag=mag_[~ok][:3], vects=box.vects, pbc=pbc)))
@@ -289,6 +318,7 @@ def run_system_forms(ctx, am, cell, box, pbc, pos, i):
     """Index forms of System.dvect/dmag against the same call made with positions."""
     rec, rng = ctx.rec, ctx.rng
     n = len(pos)
+    h = n // 2                                   # atoms k and h + k are the k-th generated pair
     s = None
     with ctx.guard('System can be built from positions, box and pbc', 'system:build'):
         s = am.System(atoms=am.Atoms(pos=pos.copy()), box=box, pbc=pbc)
@@ -320,6 +350,8 @@ def run_system_forms(ctx, am, cell, box, pbc, pos, i):
         ('position,list', spos[a] + rng.uniform(-0.3, 0.3, 3) * cell['L'], lb),
         ('positions,slice', spos[la] + 0.25 * cell['L'], slice(st, st + k)),
         ('all,int', slice(None), b),
+        ('pairs,pairs', list(range(h)), list(range(h, 2 * h))),
+        ('pairslice,pairarray', slice(0, h), np.arange(h, 2 * h)),
     ]
     for name, f0, f1 in forms:
         rec.count('index-form:' + name)
@@ -336,6 +368,7 @@ def run_system_forms(ctx, am, cell, box, pbc, pos, i):
             rec.check(same, 'System.dvect/dmag with atom indices equals the same call with those atoms\' positions',
                       f'System.{meth}:index-vs-position:{name}', form=name, got=got, expected=exp)
     # module-level call must agree with the method
+    call_both(ctx, am, spos[:h], spos[h:2 * h], box, pbc, 'system-pairs')
     res, mag = call_both(ctx, am, spos[la], spos[lb], box, pbc, 'system')
     with ctx.guard('System.dvect accepts index lists', 'System.dvect:exception:list,list'):
         rec.check(np.array_equal(np.reshape(s.dvect(la, lb), (-1, 3)), np.reshape(res, (-1, 3))),
@@ -349,7 +382,9 @@ def run_system_forms(ctx, am, cell, box, pbc, pos, i):
                 slice(0, 3), [0, 1])
 
 
-def run_displacement(ctx, am, cell, box, pbc, pos, i):
+def run_displacement(ctx, am, cell, box, pbc, pos, i, keep=None, pos_keep=None):
+    """keep (bool mask) / pos_keep: atoms whose final position is the generated partner point itself (pairs placed near
+    short lattice vectors of the initial cell), instead of deformation + thermal move + hop."""
     rec, rng = ctx.rec, ctx.rng
     v0, o0 = box.vects, box.origin
     n = len(pos)
@@ -363,6 +398,9 @@ def run_displacement(ctx, am, cell, box, pbc, pos, i):
     pos1 = S.G.cart(rel, v1, o1) + rng.normal(0, 0.03, (n, 3)) * cell['L']
     hop = rng.integers(-1, 2, (n, 3)).astype(float) * (rng.random((n, 1)) < 0.5)
     pos1 = pos1 + hop @ v1
+    if keep is not None and np.any(keep):
+        pos1[keep] = pos_keep[keep]
+        rec.count('displacement:atoms-at-generated-partner', int(np.sum(keep)))
     with ctx.guard('Systems can be built from positions, box and pbc', 'system:build'):
         s0 = am.System(atoms=am.Atoms(pos=pos.copy()), box=box, pbc=pbc)
         s1 = am.System(atoms=am.Atoms(pos=pos1), box=am.Box(vects=v1, origin=o1), pbc=pbc1)
@@ -410,7 +448,7 @@ def run(ctx):
     for i in ctx.cases('pairs', n_cases):
         rng = ctx.rng
         kind, pbc, shape, oc, scale, rnd = GEN.stratified(i)
-        cell = GEN.gen_cell(rng, kind, oc, scale, sub=i // 7)
+        cell = GEN.gen_cell(rng, kind, oc, scale, sub=i // GEN.NK, pbc=pbc)
         box = None
         with ctx.guard('Box can be built from vectors and origin', 'box:build'):
             box = am.Box(vects=cell['vects'], origin=cell['origin'])
@@ -427,9 +465,16 @@ def run(ctx):
         rec.count('class:origin:' + oc)
         single0 = ['inside', 'face', 'corner', 'outside'][(i + rnd) % 4] if shape in ('one-many', 'many-one') else None
         n = 8 if shape == 'one-one' else npairs
-        rel0, rel1, classes, p0, p1 = GEN.gen_pairs(rng, cell, n, offset=i, single0=single0)
+        # offset: the pair classes rotate against the cell kind (NK and the number of pair classes are not coprime)
+        rel0, rel1, classes, p0, p1 = GEN.gen_pairs(rng, cell, n, offset=i + i // GEN.NK, single0=single0, pbc=pbc)
         for c in classes:
             rec.count('class:pair:' + c)
+        if kind in GEN.COMBO_KINDS:
+            cr = GEN.combo_ratio(cell['vects'], pbc)
+            rec.count('class:cell:periodic-combination-shorter-than-every-cell-vector', int(cr < 1.0))
+            if cr < 1.0:
+                rec.count('class:cell:periodic-combination-shorter-than-every-cell-vector:' + kind + ':pbc=' + pname)
+            rec.count('class:cell:lammps-normalised:' + kind, int(S.is_lammps_normalised(cell['vects'])))
 
         if shape == 'one-one':
             for k in range(n):
@@ -454,16 +499,17 @@ def run(ctx):
                 call_both(ctx, am, [tuple(r) for r in p1], list(p0[0]), box, pbc_arg, 'list,list1')
             rec.count('class:list-tuple:%d' % sub)
         elif shape == 'layout':
-            name, a, b = layouts(rng, p0, p1, i // 7 + rnd)
+            name, a, b = layouts(rng, p0, p1, i // GEN.NK + rnd)
             rec.count('class:layout:' + name)
             fa, fb = fingerprint(np.array(a)), fingerprint(np.array(b))
             call_both(ctx, am, a, b, box, pbc_arg, 'layout:' + name)
             rec.check(fingerprint(np.array(a)) == fa and fingerprint(np.array(b)) == fb,
                       'the position arguments are left unchanged', 'inputs-modified')
         elif shape == 'system-index':
-            run_system_forms(ctx, am, cell, box, pbc_arg, np.vstack([p0, p1])[::2][:max(12, n // 2)], i)
+            hs = max(6, n // 4)                  # the first hs generated pairs: atoms k and hs + k
+            run_system_forms(ctx, am, cell, box, pbc_arg, np.vstack([p0[:hs], p1[:hs]]), i)
         elif shape == 'displacement':
-            run_displacement(ctx, am, cell, box, pbc_arg, p0, i)
+            run_displacement(ctx, am, cell, box, pbc_arg, p0, i, keep=np.array([c in GEN.NEAR_SHORT for c in classes]), pos_keep=p1)
 
         # incompatible lengths are refused, whatever the case class
         m0, m1 = [(3, 2), (2, 5), (4, 3), (0, 4)][i % 4]
@@ -474,7 +520,7 @@ def run(ctx):
         nontrivial = ST.shifted or not any(pbc)
         rec.case((kind, pname, shape, oc, scale), nontrivial=nontrivial,
                  fp=fingerprint(cell['vects'], cell['origin'], pname, p0, p1))
-        if i % GEN.NCOMBO in (3, 59, 118, 181, 250, 341, 397):
+        if i % GEN.NCOMBO in (3, 83, 167, 248, 329, 407, 488, 569):
             rec.sample(dict(kind=kind, pbc=pname, shape=shape, origin_class=oc, vects=cell['vects'], origin=cell['origin'],
                             pair_classes=classes[:8], p0=p0[:3], p1=p1[:3]), group='sample:' + shape)
 
@@ -500,6 +546,28 @@ def run(ctx):
     rec.floor('info:27-minimum-not-the-true-nearest(outside guard)', 5)
     rec.floor('info:ties(two candidates within the bound)', 100)
     rec.floor('info:unique-nearest-vector-compared', 1000)
+    # inputs that defeat shortcuts of the image search: a direct separation below half the shortest cell vector that an
+    # image still beats (needs a +-1 combination of periodic cell vectors shorter than every cell vector), seen by the
+    # min27 clause of every entry point, by |dvect| = dmag, with both points in the cell, in each of the four settings
+    # with two or three periodic axes, and in LAMMPS-normalised cells.  Floors are ~1/4 of the count of ONE build
+    # flavour at 3 rounds (by construction: 70 % of the halfshort pairs of flat / skew cells are of this kind).
+    for ep, m in (('dvect', 50), ('dmag', 35), ('System.dvect', 8), ('System.dmag', 8), ('displacement[initial]', 4)):
+        rec.floor(f'hostile:{ep}:short-direct-beaten', m)
+    rec.floor('hostile:dvect:short-direct-beaten:both-inside', 35)
+    rec.floor('hostile:dmag:short-direct-beaten:both-inside', 25)
+    rec.floor('hostile:dvect-vs-dmag:short-direct-beaten', 25)
+    for pbc in PBC2:
+        for ep in ('dvect', 'dmag'):
+            rec.floor(f'hostile:{ep}:short-direct-beaten:pbc=' + GEN.pbc_name(pbc), 8)
+        for kind in ('flat', 'skew'):
+            rec.floor(f'class:cell:periodic-combination-shorter-than-every-cell-vector:{kind}:pbc=' + GEN.pbc_name(pbc), 20)
+    for ep in ('dvect', 'dmag'):
+        rec.floor(f'hostile:{ep}:short-direct-beaten:lammps-normalised-cell', 5)
+        rec.floor(f'hostile:{ep}:rel-within-half-beaten', 200)
+        rec.floor(f'hostile:{ep}:best-image-is-combination', 2000)
+    rec.floor('class:cell:lammps-normalised:flat', 20)
+    rec.floor('class:cell:lammps-normalised:needle', 20)
+    rec.floor('displacement:atoms-at-generated-partner', 100)
     for kind in GEN.CELL_KINDS:
         rec.floor('class:cell:' + kind, 100)
     for pbc in GEN.PBCS:
@@ -512,7 +580,8 @@ def run(ctx):
         rec.floor('class:origin:' + oc, 100)
     for name in ('strided', 'fortran', 'column-slice', 'readonly', 'reversed', 'float32', 'single-row', 'empty'):
         rec.floor('class:layout:' + name, 5)
-    for name in ('int,int', 'negint,int', 'list,list', 'slice,slice', 'int,list', 'slice,negint', 'mask,mask', 'position,list'):
+    for name in ('int,int', 'negint,int', 'list,list', 'slice,slice', 'int,list', 'slice,negint', 'mask,mask', 'position,list',
+                 'pairs,pairs', 'pairslice,pairarray'):
         rec.floor('index-form:' + name, 50)
     for sc in ('(3,)x(3,)', '(3,)x(N,3)', '(1,3)x(N,3)', '(N,3)x(3,)', '(N,3)x(1,3)', '(N,3)x(N,3)', '(0,3)x(0,3)', '(1,3)x(1,3)'):
         rec.floor('shape:dvect:' + sc, 5)
